@@ -155,7 +155,7 @@ func (v *pkgView) paraOf(n *canon.Node) *para {
 				switch {
 				case rk.Is(canon.W, "rPr"):
 				case rk.Is(canon.W, "t"):
-					for _, ch := range rk.Text {
+					for _, ch := range textAsRead(rk) {
 						p.atoms = append(p.atoms, atom{text: true, ch: ch, fmt: f})
 					}
 				default:
@@ -170,6 +170,26 @@ func (v *pkgView) paraOf(n *canon.Node) *para {
 		}
 	}
 	return p
+}
+
+// textAsRead is the text of a w:t as a consumer of the saved file reads it: unless xml:space="preserve" is in force
+// (on the element or inherited), white space at the edges of the character data is insignificant and is dropped (Word
+// and every reader that follows ECMA-376 17.3.3.31 / XML 1.0 2.10 do so), so blanks that were supplied in a value or
+// stood at a run edge of the base only count when the file really carries them.
+func textAsRead(t *canon.Node) string {
+	for n := t; n != nil; n = n.Parent {
+		v, ok := n.Attr(canon.XML, "space")
+		if !ok {
+			v, ok = n.Attr("xml", "space")
+		}
+		if ok {
+			if v == "preserve" {
+				return t.Text
+			}
+			break
+		}
+	}
+	return strings.Trim(t.Text, " \t\r\n")
 }
 
 // sigOf renders a non-text run child; r:embed / r:id / r:link values are replaced by the hash of the bytes they resolve to.
